@@ -11,15 +11,13 @@ class C12(core.Check):
     design_ref = "DESIGN.md §5 C12"
     technique = ("Lean 4 theorems over a model of the remoter tymer / refresh / http idle check in virtual tyme; differential run of the compiled model against the real "
                  "http.Server + tcp.Server(+Tls) + Remoter + Tymer chain driven by a virtual Tymist (fake sockets; thorough adds real loopback sockets)")
-    level_text = ("Proved for every tymeout, every timing of ticks, arrivals and services (unbounded): deadline_invariant (after any history the tymer stops exactly one tymeout after the "
-                  "last service that saw traffic — no overshoot after bursts), idle_closed (no traffic for >= tymeout of virtual tyme => the next service closes a non-persistent connection), "
-                  "stays_closed, active_never_closed (traffic seen within every tymeout window => never closed), persistent_never_closed, zero_tymeout_never_closes. "
+    level_text = ("Proved for every tymeout and every history over tick / arrival (data, HTTP/1.1 request, HTTP/1.0 request) / service / re-wind of the server / change of the peer's send capacity (unbounded): deadline_invariant, traffic_restarts_tymer (traffic in EITHER direction — bytes read or >= 1 byte of output accepted), wind_restarts_tymer, idle_closed (no traffic for >= tymeout => the next service closes a non-persistent connection, WHATEVER output is still queued when the peer takes nothing), stays_closed, active_never_closed (traffic — incoming or a response leaving in partial sends — within every window => never closed by the idle check), persistent_request_disables, persistent_never_closed, zero_tymeout_never_closes. "
                   "That the configured tymeout reaches the remoter, that TLS remoters refresh too and the order check-before-receive are carried by the correspondence run on the real classes.")
     level_note = ("Trusted: Lean kernel + standard axioms; tymes are multiples of 1/8 s so float arithmetic in Tymer is exact; the HTTP request parser's decision 'persistent' is taken from the real code, "
                   "modelled as an event.")
     quick_n = 1500
     thorough_n = 10000
-    rule = ("case = (tls, tymeout in 1/8 s, ops) with ops connect(ca) / tick(d) / data(ca, n) (bytes of an unfinished request) / req(ca) (complete HTTP/1.1 request) / service; "
+    rule = ("case = (tls, tymeout in 1/8 s, ops) with ops connect(ca) / tick(d) / data(ca, n) (bytes of an unfinished request) / req(ca) (complete HTTP/1.1 request) / req10(ca) (complete non-persistent HTTP/1.0 request) / cap(ca, k) (the peer's socket takes k bytes per send, 0 = blocked) / wind(t) (server re-wound onto a tymist at tyme t, ahead or behind) / service; output phases of many short rounds with small or zero capacity; "
             "tymeout in {0,1,2,8,40}, 1-3 connections, ticks biased to the deadline -1/0/+1, bursts of several arrivals before one service. "
             "non-trivial = some connection is closed for idleness or survives past one full tymeout because of traffic; distinct by request line")
     trusted_base = ["correspondence harness/props/C12.py: compiled model vs http.Server/tcp.Server/Remoter/Tymer under a virtual Tymist", "fake socket harness/areas/tcp.py:FakeSock"]
@@ -38,6 +36,15 @@ class C12(core.Check):
             (True, 8, [("conn", 1), ("svc",), ("tick", 8), ("svc",)]),
             (False, 8, [("conn", 1), ("svc",), ("tick", 1), ("req", 1), ("svc",), ("svc",), ("tick", 8), ("svc",), ("tick", 80), ("svc",)]),
             (False, 0, [("conn", 1), ("svc",), ("tick", 100), ("svc",)]),
+            # send-side traffic: a response leaving in partial sends keeps a non-persistent connection alive
+            (False, 8, [("conn", 1), ("svc",), ("cap", 1, 3), ("req10", 1), ("svc",)] + [("tick", 3), ("svc",)] * 8 + [("cap", 1, 1 << 30), ("svc",), ("svc",)]),
+            # blocked sends are not traffic: queued output must not keep an idle connection open
+            (False, 8, [("conn", 1), ("svc",), ("cap", 1, 0), ("req10", 1), ("svc",), ("tick", 7), ("svc",), ("tick", 1), ("svc",), ("tick", 8), ("svc",)]),
+            (True, 2, [("conn", 1), ("svc",), ("cap", 1, 0), ("req10", 1), ("svc",), ("tick", 2), ("svc",)]),
+            # re-wind onto a tymist that is behind / ahead of the old one
+            (False, 8, [("conn", 1), ("svc",), ("tick", 40), ("data", 1, 1), ("svc",), ("wind", 0), ("tick", 7), ("svc",), ("tick", 1), ("svc",)]),
+            (False, 8, [("conn", 1), ("svc",), ("tick", 2), ("wind", 400), ("data", 1, 2), ("svc",), ("tick", 7), ("svc",), ("tick", 1), ("svc",)]),
+            ("real", 8, [("conn", 1), ("svc",), ("tick", 3), ("wind", 100), ("tick", 7), ("svc",), ("req10", 1), ("svc",), ("svc",), ("svc",)]),
             (False, 2, [("conn", 1), ("conn", 2), ("svc",), ("tick", 1), ("data", 2, 1), ("svc",), ("tick", 1), ("svc",), ("tick", 1), ("svc",)]),
         ]
 
@@ -57,22 +64,32 @@ class C12(core.Check):
                     joined.append(ca)
             ops.append(("svc",))
             since = 0
-            for _ in range(rng.randrange(3, 25)):
+            requested = set()
+            for _ in range(rng.randrange(3, 28)):
                 r = rng.random()
-                if r < 0.3:
+                if r < 0.28:
                     if tmo and rng.random() < 0.6:
                         d = max(0, tmo - since + rng.choice([-1, 0, 0, 1]))
                     else:
                         d = rng.choice([0, 1, 1, 2, 3, tmo, tmo + 1, rng.randrange(0, 2 * tmo + 3)])
                     ops.append(("tick", d))
                     since += d
-                elif r < 0.55 and joined:
+                elif r < 0.45 and joined:
                     ca = rng.choice(joined)
                     for _ in range(rng.choice([1, 1, 1, 2, 3, 5])):
                         ops.append(("data", ca, rng.choice([1, 2, 5])))
-                elif r < 0.6 and joined:
-                    ops.append(("req", rng.choice(joined)))
-                elif r < 0.65 and len(joined) < ncon:
+                elif r < 0.55 and joined:
+                    ca = rng.choice(joined)   # at most one complete request per connection
+                    if ca not in requested:
+                        requested.add(ca)
+                        ops.append((rng.choice(["req", "req10", "req10"]), ca))
+                elif r < 0.65 and joined and tls != "real":
+                    # how many bytes the peer lets through per send: blocked, dribble, a few, everything
+                    ops.append(("cap", rng.choice(joined), rng.choice([0, 0, 1, 1, 3, 40, T.BIGCAP])))
+                elif r < 0.7:
+                    ops.append(("wind", rng.choice([0, 0, rng.randrange(0, 60), 1000])))
+                    since = 0
+                elif r < 0.74 and len(joined) < ncon:
                     ca = [c for c in range(1, ncon + 1) if c not in joined][0]
                     ops.append(("conn", ca))
                     joined.append(ca)
@@ -81,11 +98,28 @@ class C12(core.Check):
                     if rng.random() < 0.5:
                         since = 0
             ops.append(("svc",))
+            if tls != "real" and joined and tmo and rng.random() < 0.3:
+                # output phase: a request answered into a socket that takes little or nothing, then many short rounds
+                ca = rng.choice(joined)
+                cap = rng.choice([0, 0, 1, 2, 3, 7])
+                tail = [("cap", ca, cap)]
+                if ca not in requested:
+                    tail.append((rng.choice(["req10", "req10", "req"]), ca))
+                tail.append(("svc",))
+                for _ in range(rng.randrange(2, 14)):
+                    tail.append(("tick", rng.choice([max(0, tmo - 1), max(0, tmo - 1), tmo // 2, 1, tmo])))
+                    if rng.random() < 0.15:
+                        tail.append(("cap", ca, rng.choice([0, 1, 3, T.BIGCAP])))
+                    tail.append(("svc",))
+                ops += tail
             yield (tls, tmo, ops)
 
     def request(self, case):
         tls, tmo, ops = case
-        return ("idle", tls is True, tmo, [tuple(o) for o in ops])
+        return ("idle", tls is True, tmo, T.resp_len(), [tuple(o) for o in ops])
+
+    def compare_view(self, case, obs):
+        return sx.dumps(T.strip_idle(obs))
 
     def run_impl(self, case):
         if case[0] == "real":
@@ -93,67 +127,96 @@ class C12(core.Check):
         return T.run_idle(case)
 
     def oracle(self, case, obs):
-        """per connection: `seen` = tyme of the last service at which the server could see traffic from it (or its acceptance);
-        idle >= tymeout at a service => closed after it; idle < tymeout => not closed by it; persistent / tymeout 0 => never closed"""
+        """per connection: `seen` = tyme of the last service at which there was traffic on it — bytes from the peer read, or
+        bytes of output the peer's socket accepted — or its acceptance, or the last re-wind of the server;
+        idle >= tymeout at a service => closed after it, whatever is still queued; idle < tymeout => not closed by it, unless the
+        HTTP layer is done with a non-persistent exchange (response completely accepted by the socket);
+        persistent / tymeout 0 => never closed"""
         tls, tmo, ops = case
+        L = T.resp_len()
         bad = []
         now = 0
         order = []
-        state = {}   # ca -> dict(acc, seen, undelivered, persistent, open)
+        state = {}
         for op, (st, snap) in zip(ops, obs):
             if st != "ok":
                 bad.append("service-raised")
             k = op[0]
             if k == "conn":
                 order.append(op[1])
-                state[op[1]] = dict(acc=False, seen=None, und=0, undreq=False, pers=False, open=True)
+                state[op[1]] = dict(acc=False, seen=None, und=0, undreq=False, und10=False, pers=False, open=True, inhead=False,
+                                    nonpers=False, kacc=0, kacc_at_req=None)
             elif k == "tick":
                 now += op[1]
-            elif k in ("data", "req"):
-                s = state.get(op[1])
-                if s and s["acc"] and s["open"]:
-                    s["und"] += 1
-                    s["undreq"] = s["undreq"] or k == "req"
+            elif k == "wind":
+                now = op[1]
+                for s_ in state.values():
+                    if s_["acc"] and s_["open"]:
+                        s_["seen"] = now
+            elif k in ("data", "req", "req10"):
+                s_ = state.get(op[1])
+                if s_ and s_["acc"] and s_["open"]:
+                    s_["und"] += 1
+                    if k == "data":
+                        s_["inhead"] = True
+                    else:
+                        if k == "req" or s_["inhead"]:
+                            s_["undreq"] = True
+                        else:
+                            s_["und10"] = True
+                        s_["inhead"] = False
             elif k == "svc":
                 for i, ca in enumerate(order):
-                    s = state[ca]
-                    got = snap[i]
-                    if not s["acc"]:
-                        s["acc"] = True
-                        s["seen"] = now
+                    s_ = state[ca]
+                    got, txlen, kacc = snap[i]
+                    if got == "dropped-but-socket-open":
+                        bad.append("dropped-but-socket-open")
+                        got = "closed"
+                    if not s_["acc"]:
+                        s_["acc"] = True
+                        s_["seen"] = now
                         if got != "open":
                             bad.append("closed-at-accept")
-                            s["open"] = False
+                            s_["open"] = False
                         continue
-                    if not s["open"]:
+                    if not s_["open"]:
                         if got != "closed":
                             bad.append("reopened")
                         continue
-                    idle = now - s["seen"]
-                    if s["pers"] or tmo == 0:
+                    idle = now - s_["seen"]
+                    sent_now = kacc > s_["kacc"]
+                    done10 = s_["nonpers"] and s_["kacc"] - s_["kacc_at_req"] >= L   # the whole response had left before this pass
+                    if s_["pers"] or tmo == 0:
                         if got != "open":
-                            bad.append("persistent-or-untimed-closed")
-                            s["open"] = False
+                            if not done10:
+                                bad.append("persistent-or-untimed-closed")
+                            s_["open"] = False
                     elif idle >= tmo:
                         if got != "closed":
                             bad.append("idle-not-closed")
-                        s["open"] = False if got == "closed" else True
-                    else:
-                        if got != "open":
+                        s_["open"] = got != "closed"
+                    elif got != "open":
+                        if not done10:
                             bad.append("active-closed")
-                            s["open"] = False
-                    if s["open"] and s["und"]:
-                        s["seen"] = now
-                        s["pers"] = s["pers"] or s["undreq"]
-                        s["und"] = 0
-                        s["undreq"] = False
+                        s_["open"] = False
+                    if s_["open"] and (s_["und"] or sent_now):
+                        s_["seen"] = now
+                    if s_["open"] and s_["und"]:
+                        s_["pers"] = s_["pers"] or s_["undreq"]
+                        if s_["und10"] and not s_["nonpers"]:
+                            s_["nonpers"] = True
+                            s_["kacc_at_req"] = s_["kacc"]
+                        s_["und"] = 0
+                        s_["undreq"] = False
+                        s_["und10"] = False
+                    s_["kacc"] = kacc
         return sorted(set(bad))
 
     def nontrivial(self, case, obs):
         tls, tmo, ops = case
-        closed = any("closed" in snap for st, snap in obs)
+        closed = any(e[0] == "closed" for st, snap in obs for e in snap)
         total = sum(o[1] for o in ops if o[0] == "tick")
-        survived = tmo > 0 and total >= tmo and obs and "open" in obs[-1][1] and any(o[0] in ("data", "req") for o in ops)
+        survived = tmo > 0 and total >= tmo and obs and any(e[0] == "open" for e in obs[-1][1]) and any(o[0] in ("data", "req", "req10") for o in ops)
         return closed or survived
 
     def features(self, case, obs):
@@ -161,7 +224,12 @@ class C12(core.Check):
         f = ["real-loopback" if tls == "real" else "tls" if tls else "plain", "tymeout:%d" % tmo, "conns:%d" % sum(1 for o in ops if o[0] == "conn")]
         if obs:
             for x in obs[-1][1]:
-                f.append("end:" + x)
+                f.append("end:" + x[0])
+        for kk in ("req10", "cap", "wind"):
+            if any(o[0] == kk for o in ops):
+                f.append("op:" + kk)
+        if any(e[0] == "open" and e[1] > 0 for st, snap in obs for e in snap):
+            f.append("output-queued")
         if any(o[0] == "req" for o in ops):
             f.append("persistent-request")
         burst = 0
